@@ -221,7 +221,7 @@ class Explorer:
             if token and token[0][0] == "tmp":
                 me = sched.current()
                 rel = os.path.relpath(ctx.cur_paths[0], self.root)
-                if me is not None:
+                if me is not None and me.tid in self.sc.threads:     # not the C08 follow-up calls
                     tmp_touch.setdefault(rel, set()).add(me.tid)
                 if rel in self.shared_tmp:
                     S.yield_point(("fs", op, token))
